@@ -44,7 +44,12 @@ def gen_case(rng, size="small", allow_stacked=True, allow_multi=True):
     # contention mode (30 %): one tight location, every job targets it, all requests first, releases in random order:
     # several requests with different requirements are blocked at once
     contention = rng.random() < 0.3
-    if contention:
+    # two input classes outside the engine's normal lifecycle, each on flat single-location configurations only so that their
+    # findings have their own signatures: out-of-order RUNNING after a terminal status (C11 text: "regardless of the order"),
+    # and du reporting more than was reserved (150 % / 200 %)
+    special = rng.random()
+    late_running, overuse = special < 0.15, 0.15 <= special < 0.27
+    if contention or late_running or overuse:
         allow_stacked, allow_multi = False, False
     if allow_stacked and rng.random() < 0.45:
         hw_inner = rng.random() < 0.75
@@ -103,8 +108,6 @@ def gen_case(rng, size="small", allow_stacked=True, allow_multi=True):
         jobs[nm] = {"req": req, "targets": targets}
     nops = rng.randrange(6, 25 if size == "small" else 60)
     ops = []
-    late_running = rng.random() < 0.2        # out-of-order: RUNNING may be notified after a terminal status (C11 text: "regardless of the order")
-    overuse = rng.random() < 0.15            # du may report more than was reserved (150 % / 200 %)
     if contention:
         order = list(names)
         rng.shuffle(order)
